@@ -5,6 +5,7 @@ import (
 	"fmt"
 	"reflect"
 	"strconv"
+	"strings"
 	"sync"
 
 	"github.com/woodsbury/jmespath"
@@ -147,6 +148,31 @@ func genC06(tier, out string, sum *Summary) {
 		items = append(items, item{sc.e, unparse(sc.e), sc.doc})
 		ssN++
 	}
+	// a built-in that reorders or rebuilds an array, handed a value that may still be the caller's own array
+	for i, e := range aliasExprs() {
+		if tier != "thorough" && i%3 != 0 {
+			continue
+		}
+		items = append(items, item{e, unparse(e), jsonDoc(aliasDocs[i%len(aliasDocs)])})
+	}
+	// a compiled expression entered again while it is being evaluated (a value in the data that serialises itself
+	// by querying with the same expression): the outer evaluation still sees its own document
+	for _, text := range []string{"[to_string(a), $.b]", "[$.b, to_string(a), $.b, b]", "let $v = b in [to_string(a), $v, $.b]", "{p: to_string(a), q: $.b}.[p, q]", "[a, b][?to_string(@) != $.b] | [length(@), $.b]", "map(&[to_string(@), $.b], [a])", "to_string(a) | [@, $.b]"[:0] + "[to_string(a)][*].[@, $.b]"} {
+		var shared *jmespath.Expression
+		inner := map[string]any{"a": "nested", "b": "inner"}
+		doc := map[string]any{"a": reent{&shared, text, inner}, "b": "outer"}
+		fresh := search(text, doc) // every level compiles for itself
+		x, err := jmespath.Compile(text)
+		if err != nil {
+			continue
+		}
+		shared = x
+		o := observe(func() (any, error) { return x.Search(doc) })
+		sum.count("reentrant")
+		if !sameObs(o, fresh, false) {
+			sum.direct("reuse", text, map[string]any{"a": "<a value whose MarshalJSON searches {a: nested, b: inner} with the same compiled expression>", "b": "outer"}, fmt.Sprintf("the compiled expression, entered again during its own evaluation, gives %s; fresh compilations give %s", describe(o), describe(fresh)))
+		}
+	}
 	for i := 0; i < n; i++ {
 		e := g.expr(3)
 		items = append(items, item{e, unparse(e), nil})
@@ -226,6 +252,26 @@ func genC06(tier, out string, sum *Summary) {
 
 func snapshotResult(v any) any { return deepCopy(v) }
 
+type reent struct {
+	x     **jmespath.Expression
+	text  string
+	inner any
+}
+
+func (r reent) MarshalJSON() ([]byte, error) {
+	var v any
+	var err error
+	if *r.x != nil {
+		v, err = (*r.x).Search(r.inner)
+	} else {
+		v, err = jmespath.Search(r.text, r.inner)
+	}
+	if err != nil {
+		return nil, err
+	}
+	return json.Marshal(v)
+}
+
 func genC07(tier, out string, sum *Summary) {
 	n := 40
 	workers, rounds := 8, 30
@@ -236,6 +282,20 @@ func genC07(tier, out string, sum *Summary) {
 	distinct := map[string]bool{}
 	// scratch space kept between calls shows when the calls work on different data
 	fixed := []string{"zip(a, b)", "zip(a, b, a)", "merge(@, {x: a})", "merge({x: a}, {y: b}, @)", "sort(a)", "sort_by(o, &n)[*].n", "a[*] | reverse(@)", "[a, b][]", "map(&[@, @], a)", "group_by(o, &to_string(n))", "let $v = a in [$v, b, $v]", "not_null(c, a, b)", "{p: a, q: b, r: c}", "a[?@ > c]", "max_by(o, &n)", "join(',', map(&to_string(@), a))", "from_items(zip(keys(@), values(@))) | length(@)", "to_string(@)", "a[::-1]", "sum(a) + c"}
+	// the root node and variables while other goroutines evaluate the same compiled expression on other documents
+	fixed = append(fixed, "o[*].[$.c, n]", "a[?@ > $.c]", "let $v = c in a[*].[$v, $.c]", "a[*].[@, $.b[0]]", "[a, b][*][?@ != $.c]", "map(&[@, $.c], a)", "sort_by(o, &($.c - n))[*].n", "a | [$.c, @[0]]", "{p: $.c, q: a[*].[$.c]}.q[0][0] == $.c")
+	// anything an expression could build lazily on first use from its own literals: long literal arrays and
+	// objects searched, sorted, joined and indexed by all goroutines at once from the first call on
+	{
+		names := make([]string, 400)
+		for i := range names {
+			names[i] = `"n` + strconv.Itoa(i*7%400) + `"`
+		}
+		long := "`[" + strings.Join(names, ",") + "]`"
+		longNums := "`[" + strings.Join(strings.Split(strings.Repeat("5,3,9,1,", 60)+"0", ","), ",") + "]`"
+		fixed = append(fixed, "b[?contains("+long+", @)]", "contains("+long+", b[0])", "[contains("+long+", 'n7'), contains("+long+", 'zz'), contains("+long+", c)]", "sort("+long+")[0]", "length("+long+")", "a[?contains("+longNums+", @)]", "max("+longNums+") + c",
+			"join(',', "+long+") | length(@)", "sort_by("+long+", &@)[-1]", long+"[?@ == $.b[0]]", "group_by("+long+", &@) | length(@)", "reverse("+long+")[0]", "contains("+long+", 'n7') && contains(b, b[0])")
+	}
 	// every combination of two constructs (a sample in the quick tier), each goroutine on its own document
 	var ssItems []ssCase
 	for i, sc := range smallScope(ssCfg{funcs: true, lets: true, bools: true}, 1, 0) {
